@@ -22,6 +22,7 @@ def _job(args):
         if 'instr_budget' in opts: ex.it.instr_budget = opts['instr_budget']
         if 'max_loop' in opts: ex.it.max_loop = opts['max_loop']
         if opts.get('panic_ok'): ex.uncaught_panic_is_violation = False
+        ex.params = opts.get('params', {})
         setup = None
         if opts.get('setup'):
             import importlib
@@ -30,11 +31,22 @@ def _job(args):
             if opts.get('setup_once', True):
                 setup(ex); setup = None
         t = time.time()
-        ex.run(name, init_pkgs, prefixes, setup)
+        import signal
+        def on_alarm(sig, frm):
+            raise engine.JobTimeout()
+        signal.signal(signal.SIGALRM, on_alarm)
+        signal.alarm(int(opts.get('job_timeout', 900)))
+        try:
+            ex.run(name, init_pkgs, prefixes, setup)
+        except engine.JobTimeout:
+            ex.inconclusive.append(('job-timeout', opts.get('label', name)))
+        finally:
+            signal.alarm(0)
         s = ex.summary()
         s['wall_s'] = round(time.time() - t, 3)
         s['harness'] = name
         s['prefixes'] = prefixes
+        s['label'] = opts.get('label')
         return s
     except SystemExit:
         return {'harness': name, 'error': 'machinery exit', 'prefixes': prefixes}
@@ -141,6 +153,26 @@ func vfFloat64(name string) float64 { return math.Float64frombits(vfU(vfNext("vf
 func vfBool(name string) bool       { return vfU(vfNext("vfBool", name)) != 0 }
 func vfChoice(name string, n int) int {
 	return int(vfU(vfNext("vfChoice", name)))
+}
+func vfStrOf(raw json.RawMessage) string {
+	var f struct {
+		Str []byte `json:"-"`
+		S   []int  `json:"str"`
+	}
+	json.Unmarshal(raw, &f)
+	b := make([]byte, len(f.S))
+	for i, x := range f.S {
+		b[i] = byte(x)
+	}
+	return string(b)
+}
+func vfParamStr(name string) string { return vfStrOf(vfNext("vfParamStr", name)) }
+func vfParamInt(name string) int    { return int(vfU(vfNext("vfParamInt", name))) }
+func vfUFInt(name string, args ...int) int {
+	return int(vfU(vfNext("vfUFInt", name)))
+}
+func vfUFBool(name string, args ...int) bool {
+	return vfU(vfNext("vfUFBool", name)) != 0
 }
 func vfAssume(ok bool) {
 	if !ok {
@@ -300,8 +332,15 @@ def run_property(prop, tier, jobs, meta, seed=0, procs=None):
     if seed:
         import random
         random.Random(seed).shuffle(jobs)
+    results = []
+    progress = os.environ.get('VERIF_PROGRESS')
     with multiprocessing.Pool(procs, initializer=_init_worker) as pool:
-        results = pool.map(_job, jobs, chunksize=1)
+        for r in pool.imap_unordered(_job, jobs, chunksize=1):
+            results.append(r)
+            if progress:
+                print('[%d/%d] %.1fs %s %s paths=%s viol=%s %s' % (len(results), len(jobs), r.get('wall_s', -1), r['harness'].rsplit('.', 1)[-1], r.get('label') or r.get('prefixes'),
+                      r.get('paths'), len(r.get('violations', [])), (r.get('error') or '')[-200:].replace('\n', ' | ')), file=sys.stderr, flush=True)
+    results.sort(key=lambda r: (r['harness'], str(r.get('label')), str(r.get('prefixes'))))
     agg = {'paths': 0, 'instrs': 0, 'q_sat': 0, 'q_unsat': 0, 'q_unknown': 0, 'solver_s': 0.0, 'proved': 0, 'failed': 0,
            'unsupported': {}, 'unwind': 0, 'reach': {}, 'functions': set(), 'samples': [], 'inconclusive': [], 'errors': [], 'outcomes': {}}
     viols = []
@@ -380,6 +419,9 @@ def run_property(prop, tier, jobs, meta, seed=0, procs=None):
         lines.append('INCONCLUSIVE property=%s unsupported=%s paths=%d' % (prop, k, n))
     if agg['unwind']:
         lines.append('INCONCLUSIVE property=%s unwinding bound reached on %d paths' % (prop, agg['unwind']))
+    nto = sum(1 for x in agg['inconclusive'] if x[0] == 'job-timeout')
+    if nto:
+        lines.append('INCONCLUSIVE property=%s %d jobs stopped at the per-job time limit (partial exploration): %s' % (prop, nto, '; '.join(str(x[1]) for x in agg['inconclusive'] if x[0] == 'job-timeout')[:600]))
     if agg['q_unknown']:
         lines.append('INCONCLUSIVE property=%s solver returned unknown on %d queries' % (prop, agg['q_unknown']))
     for k in meta.get('must_reach', []):
